@@ -32,6 +32,13 @@ CHECKS = {
             "longer, implicit shortening only with a Newton failure logged by the step() wrapper; autonomous problems are re-run time-shifted and "
             "time-reflected and compared row by row at rounding level (fixed step) / tolerance level (adaptive); bit-equality counts are reported.",
             "Exploration; relation oracles need no exact solution. KF06-08 (non-adaptive implicit methods grow their step) are open known findings.", "4/C04"),
+    "C05": ("exploration", "runtime oracle against exact solutions in tolerance units (global + local flow) and an attempts-log monitor on step()",
+            "Adaptive pairs and Richardson wrappers run on contractive manufactured/linear problems with closed-form solutions over tolerances 1e-3..1e-11, "
+            "both directions and initial steps from 1e-4 to 20x the span: every recorded state is compared with the exact solution (normalised by the "
+            "steps inside the problem's memory window), sampled accepted steps with the exact local flow from the recorded previous state, the logged "
+            "attempts must strictly shrink after a controller rejection, and blow-up problems must raise with an accurate prefix.",
+            "Exploration; constants K_LOC=50, K_GLOB=20 tolerance units (worst observed values are in the evidence); problems are contractive along the "
+            "integration direction so the problem's own amplification is ~1.", "4/C05"),
 }
 
 NOT_YET = {}
